@@ -347,7 +347,10 @@ def build(ctx):
         # length 3 over a reduced alphabet (the full one gives 4.3k sequences, several hundred of them with
         # ten-minute queries: three mergeable gates in a row put three angles into one linear path condition)
         red = [a for a in alpha if a["name"] in ("R0", "R.H0", "R1", "S0", "D0", "F0", "Loss0", "Vac0", "BS01", "MeasX1", "R(q1)0")]
-        seqs += [s for s in sequences(red, 3, nm) if len(s) == 3]
+        def fam_(x):
+            return x.replace(".H", "")
+        # (three gates of one merge family in a row -- R|R|R, D|D|D ... -- need ten-minute queries: only R0|R0|R0 is kept)
+        seqs += [s for s in sequences(red, 3, nm) if len(s) == 3 and (len(set(fam_(x) for x in s)) > 1 or s == ["R0", "R0", "R0"])]
     if not ctx.thorough:
         # plus the length-3 sequences around a measurement (where a command sits on several wires of the grid)
         extra = [s for s in sequences([a for a in alpha if a["name"] in ("MeasX1", "R(q1)0", "D(q1)0", "R(2*q1).H0", "R0", "R1", "F0")], 3, nm)
